@@ -44,6 +44,11 @@ def jobs(tier, seed):
             out.append({'name': 'equal_interval-%dx%d-k%d' % (shp[0], shp[1], k), 'kind': 'equal_interval', 'shape': list(shp), 'k': k})
             out.append({'name': 'quantile-%dx%d-k%d' % (shp[0], shp[1], k), 'kind': 'quantile', 'shape': list(shp), 'k': k})
     out.append({'name': 'equal_interval-inf-cells', 'kind': 'equal_interval', 'shape': [1, 3], 'k': 2, 'inf': True})
+    # narrow integer rasters over the whole range of the dtype (span wider than the dtype's positive range): NumPy and Dask branch
+    for dt in ('int8', 'int16'):
+        out.append({'name': 'equal_interval-%s-full-range' % dt, 'kind': 'equal_interval', 'shape': [1, 3], 'k': 2, 'int_dtype': dt})
+    out.append({'name': 'equal_interval-int8-full-range-dask', 'kind': 'equal_interval', 'shape': [1, 3], 'k': 2, 'int_dtype': 'int8', 'chunks': ((1,), (2, 1))})
+    out.append({'name': 'quantile-int8-full-range', 'kind': 'quantile', 'shape': [1, 3], 'k': 2, 'int_dtype': 'int8'})
     # float rounding of min + i*width is invisible to the exact-real model (np.arange may overshoot by one element, the last cut may round below the maximum):
     # a concrete sweep over small integer ranges, where those roundings do occur, executes the same code with real float arithmetic
     for k in (2, 3, 5, 7):
@@ -211,8 +216,14 @@ def body_datadriven(ctx, job):
     h, w = job['shape']
     k = job['k']
     n = h * w
-    d = ctx.array('d', (h, w), 'float64', nan=True, inf=bool(job.get('inf')))
-    agg = raster(d, attrs={'res': 1}, name='a')
+    if job.get('int_dtype'):
+        # narrow integer raster over its FULL value range: a min / max kept as a NumPy scalar of that dtype makes max - min wrap around
+        import numpy as _rnp
+        info = _rnp.iinfo(job['int_dtype'])
+        d = ctx.array('d', (h, w), job['int_dtype'], lo=int(info.min), hi=int(info.max))
+    else:
+        d = ctx.array('d', (h, w), 'float64', nan=True, inf=bool(job.get('inf')))
+    agg = raster(d, attrs={'res': 1}, name='a', **({'chunks': job['chunks']} if job.get('chunks') else {}))
     dl = d.flat_values()
     fin = [isfinite(v) for v in dl]
     # at least two distinct finite values
